@@ -32,6 +32,9 @@ struct InnerQueue<T> {
     tx_ports: AtomicUsize,
     // if rx is dropped
     rx_ports: AtomicUsize,
+    // construction site that names the `sem.*` schedule points below
+    #[cfg(may_verif)]
+    sem_gate: &'static std::panic::Location<'static>,
 }
 
 impl<T> InnerQueue<T> {
@@ -41,7 +44,16 @@ impl<T> InnerQueue<T> {
             sem: Semphore::new(0),
             tx_ports: AtomicUsize::new(1),
             rx_ports: AtomicUsize::new(1),
+            #[cfg(may_verif)]
+            sem_gate: std::panic::Location::caller(),
         }
+    }
+
+    /// a schedule point and trace event in front of a call into the semaphore (whose own
+    /// steps belong to another layer): `sem.post`, `sem.wait`, `sem.try_wait`
+    #[cfg(may_verif)]
+    fn vsem(&self, what: &'static str) {
+        crate::verif::op(self.sem_gate, &self.sem as *const _ as usize, what, 0, 0, 0, || 0);
     }
 
     pub fn send(&self, t: T) -> Result<(), SendError<T>> {
@@ -50,6 +62,8 @@ impl<T> InnerQueue<T> {
         }
 
         self.queue.push(t);
+        #[cfg(may_verif)]
+        self.vsem("sem.post");
         self.sem.post();
         Ok(())
     }
@@ -61,6 +75,8 @@ impl<T> InnerQueue<T> {
             Err(TryRecvError::Disconnected) => return Err(RecvTimeoutError::Disconnected),
         }
 
+        #[cfg(may_verif)]
+        self.vsem("sem.wait");
         match dur {
             None => self.sem.wait(),
             Some(t) => {
@@ -75,6 +91,8 @@ impl<T> InnerQueue<T> {
             None => match self.tx_ports.load(Ordering::Acquire) {
                 0 => {
                     // we got the disconnect token, pass it on to the next receiver
+                    #[cfg(may_verif)]
+                    self.vsem("sem.post");
                     self.sem.post();
                     Err(RecvTimeoutError::Disconnected)
                 }
@@ -84,6 +102,8 @@ impl<T> InnerQueue<T> {
     }
 
     pub fn try_recv(&self) -> Result<T, TryRecvError> {
+        #[cfg(may_verif)]
+        self.vsem("sem.try_wait");
         if !self.sem.try_wait() {
             // no permit, nothing to take right now. Disconnected is only reported
             // by a receiver that holds the disconnect token (see below): data that
@@ -96,6 +116,8 @@ impl<T> InnerQueue<T> {
             None => match self.tx_ports.load(Ordering::Acquire) {
                 0 => {
                     // we got the disconnect token, pass it on to the next receiver
+                    #[cfg(may_verif)]
+                    self.vsem("sem.post");
                     self.sem.post();
                     Err(TryRecvError::Disconnected)
                 }
@@ -114,6 +136,8 @@ impl<T> InnerQueue<T> {
                 // there is no tx port any more: post the disconnect token.
                 // Every receiver that gets it (a permit without data) passes
                 // it on, so all the waiting rx and all the later ones come back
+                #[cfg(may_verif)]
+                self.vsem("sem.post");
                 self.sem.post();
             }
             n if n > 1 => {}
